@@ -802,7 +802,29 @@ impl Session {
             b'Q' => {
                 self.snap.skip = false;
                 let sql = m.text();
-                self.simple_query(&sql);
+                if sql.contains("ERR!RAW") {
+                    // echo the query bytes verbatim (as a server with SQL_ASCII encoding would)
+                    let mut b = Vec::new();
+                    b.push(b'S');
+                    b.extend_from_slice(b"ERROR\0");
+                    b.push(b'V');
+                    b.extend_from_slice(b"ERROR\0");
+                    b.push(b'C');
+                    b.extend_from_slice(b"42601\0");
+                    b.push(b'M');
+                    b.extend_from_slice(b"syntax error at or near ");
+                    b.extend(m.body.iter().cloned().filter(|x| *x != 0));
+                    b.push(0);
+                    b.push(0);
+                    self.log(Rec::BExec { conn: self.id, sql: sql.clone(), via: b'Q', st: self.snap.clone(), stmt: None });
+                    self.emit(wire::msg(b'E', &b));
+                    if self.snap.status == b'T' {
+                        self.snap.status = b'E';
+                    }
+                    self.ready();
+                } else {
+                    self.simple_query(&sql);
+                }
             }
             b'X' => return Flow::Close,
             b'S' => {
